@@ -18,7 +18,7 @@ import (
 	"golang.org/x/tools/go/ssa/ssautil"
 )
 
-const repoDir = "/repo"
+var repoDir = "/repo"
 const contractFileName = "zz_contracts_verif.go"
 
 func findContractDirs() []string {
@@ -201,6 +201,12 @@ func cmdSSA(args []string) {
 				fn.WriteTo(os.Stdout)
 			}
 		}
+	}
+}
+
+func init() {
+	if d := os.Getenv("GOVC_REPO"); d != "" {
+		repoDir = d
 	}
 }
 
